@@ -274,7 +274,7 @@ fn run_case(ops: &TypeOps, bytes: &[u8], fault: Fault, layers: &[Layer], what: &
 pub fn c10(ctx: &Ctx) {
 	let mut rep = Report::new("C10");
 	let types = containers(ctx.is_slow());
-	let nvals = ctx.budget(60, 600);
+	let nvals = ctx.budget(200, 2000);
 	for (ti, ops) in types.iter().enumerate() {
 		if ti % ctx.nshards != ctx.shard {
 			continue;
